@@ -448,6 +448,22 @@ def neg_width(parsed):
     return w
 
 
+def nullable(items):
+    for op, av in items:
+        if op == src.BRANCH:
+            if not any(nullable(a) for a in av[1]):
+                return False
+        elif op == src.SUBPATTERN:
+            if not nullable(av[3]):
+                return False
+        elif op in (src.MAX_REPEAT, src.MIN_REPEAT):
+            if av[0] > 0 and not nullable(av[2]):
+                return False
+        elif op != src.AT:
+            return False
+    return True
+
+
 def deriv_blowup(items, n):
     """the derivative matcher of D42.Regex keeps no alternative-normal form: x{m,m+d} on n
     characters grows like C(d, n); nested variable repeats multiply"""
@@ -465,7 +481,7 @@ def deriv_blowup(items, n):
             if mx == src.MAXREPEAT:
                 f *= inner * (min(n, 6) if inner > 1 or star_height(body) else 1)
             else:
-                d = int(mx - mn)
+                d = int(mx) if nullable(body) else int(mx - mn)      # copies that may be empty
                 f *= math.comb(d, min(n, d // 2)) * inner ** min(int(mx), 3)
     return f
 
@@ -490,12 +506,13 @@ def rx_cost(items):
 # ---------------------------------------------------------------- one observed run
 class Run:
     __slots__ = ("pattern", "k", "mode", "tape", "kind", "out", "exc", "stream", "label", "cre", "supported",
-                 "mandatory")
+                 "mandatory", "order")
 
     def replay_dict(self):
         return {
             "pattern": self.pattern, "max_repeat": self.k, "tape": list(self.tape), "stream": self.stream,
             "label": self.label,
+            "candidate_order": getattr(self, "order", "sorted by the harness (SortedSetRandom)"),
             "python": ("from d42.generation import Random, RegexGenerator; import tape\n"
                        f"with tape.scripted(tape.Tape({list(self.tape)!r})):\n"
                        f"    s = RegexGenerator(Random(){'' if self.k is None else ', max_repeat=%r' % self.k})"
@@ -563,6 +580,7 @@ def observe_pattern(ctx, pattern, stream, label, n_rand, runs, stats):
             x.out = val if kind == "ok" else None
             x.exc = val if kind == "raise" else None
             x.cre, x.supported, x.mandatory = c, supported, mand
+            x.order = "sorted by the harness (SortedSetRandom)"
             runs.append(x)
     return True
 
@@ -682,6 +700,7 @@ def class_sweep(ctx, cls_src, stats, runs):
             x.out = val if kind == "ok" else None
             x.exc = val if kind == "raise" else None
             x.cre, x.supported, x.mandatory = (c if sorted_sets else None), supported, mand
+            x.order = "sorted by the harness (SortedSetRandom)" if sorted_sets else "CPython hash order (PYTHONHASHSEED)"
             stats["sweep_runs"] += 1
             if kind == "ok":
                 if re.fullmatch(pattern, val) is None:
@@ -787,6 +806,12 @@ def run(ctx):
         if x.stream == "supported" and not x.supported:
             raise common.CheckBroken(f"pattern generator left the supported grammar: {x.pattern!r}")
 
+    # direct oracle on every run
+    schema_cache = {}
+    for x in runs:
+        if x.stream != "sweep":
+            oracle_run(ctx, x, stats, schema_cache)
+
     # exhaustive sweeps of single classes (every candidate index)
     cls_distinct = list(dict.fromkeys(classes))
     r.shuffle(cls_distinct)
@@ -795,11 +820,6 @@ def run(ctx):
     for cs in fixed_classes + cls_distinct[:ctx.scale(25, 250)]:
         class_sweep(ctx, cs, stats, runs)
 
-    # direct oracle on every run
-    schema_cache = {}
-    for x in runs:
-        if x.stream != "sweep":
-            oracle_run(ctx, x, stats, schema_cache)
     n_fake = ctx.scale(120, 1500)
     for p in sup_patterns[:n_fake]:
         oracle_fake(ctx, p, stats, None, True, False)
